@@ -86,7 +86,12 @@ unexpected_cfgs = { level = "allow" }
     # a copy of the saphyr crate built on the substituted parser, so that tests using both crates type-check
     S2 = "/verif/.work/gen/saphyr_lm"
     os.makedirs(S2, exist_ok=True)
-    sync_tree("/repo/saphyr/src", S2 + "/src")
+    stage2 = S2 + "/.stage_src"
+    if os.path.exists(stage2):
+        shutil.rmtree(stage2)
+    shutil.copytree("/repo/saphyr/src", stage2)
+    sync_tree(stage2, S2 + "/src")
+    shutil.rmtree(stage2)
     if os.path.islink(S2 + "/tests"):
         os.unlink(S2 + "/tests")
     os.symlink("/repo/saphyr/tests", S2 + "/tests")
